@@ -106,6 +106,9 @@ type Service struct {
 	// against the stop path.
 	publishMu sync.Mutex
 
+	// startLocks holds one mutex per pipeline ID, see lockStart.
+	startLocks sync.Map
+
 	// terminalErrors holds the terminal error of a pipeline after it has stopped
 	// and been removed from runningPipelines, so WaitPipeline can still report it
 	// to a caller that races the pipeline's own cleanup. Written before the
@@ -243,6 +246,14 @@ func (s *Service) Start(
 	ctx context.Context,
 	pipelineID string,
 ) error {
+	// One start per pipeline at a time. The check below and the moment the
+	// status becomes "running" (at the end of runPipeline) are far apart: a
+	// user Start that arrives while error recovery is restarting the pipeline
+	// (or the other way round) passed the check too, and two runs of the same
+	// pipeline were started.
+	unlock := s.lockStart(pipelineID)
+	defer unlock()
+
 	pl, err := s.pipelines.Get(ctx, pipelineID)
 	if err != nil {
 		return err
@@ -289,6 +300,14 @@ func (s *Service) Start(
 	s.logger.Info(ctx).Str(log.PipelineIDField, pl.ID).Msg("pipeline started")
 
 	return nil
+}
+
+// lockStart serializes Start calls for one pipeline ID.
+func (s *Service) lockStart(pipelineID string) (unlock func()) {
+	m, _ := s.startLocks.LoadOrStore(pipelineID, &sync.Mutex{})
+	mu := m.(*sync.Mutex) //nolint:forcetypeassert // only *sync.Mutex is ever stored
+	mu.Lock()
+	return mu.Unlock
 }
 
 // StartWithBackoff starts a pipeline with a backoff.
@@ -342,7 +361,13 @@ func (s *Service) StartWithBackoff(ctx context.Context, rp *runnablePipeline) er
 		return cerrors.FatalError(pipeline.ErrForceStop)
 	}
 
-	return s.Start(ctx, rp.pipeline.ID)
+	err := s.Start(ctx, rp.pipeline.ID)
+	if cerrors.Is(err, pipeline.ErrPipelineRunning) {
+		// a user Start got in first and the pipeline is running again: that
+		// run owns the pipeline now, there is nothing left to recover
+		return nil
+	}
+	return err
 }
 
 // Stop will attempt to gracefully stop a given pipeline by calling each node's
